@@ -88,7 +88,7 @@ C10Seg(S, q) ==
           ELSE IF n >= 1 /\ S.s[1].o # S.mdat[1].po THEN {FSig("C10", "DataOffset", "trun", "not-at-mdat-payload")}
           ELSE IF SumSeq([i \in 1..n |-> S.s[i].z]) # S.mdat[1].pl THEN {FSig("C10", "DataOffset", "mdat", "payload-size")}
           ELSE {})
-    \cup (IF (S.tfhdflags \div 131072) % 2 # 1 THEN {FSig("C10", "DataOffset", "tfhd", "base-not-moof")} ELSE {})
+    \cup (IF S.tfhdflags % 2 = 1 THEN {FSig("C10", "DataOffset", "tfhd", "base-not-moof")} ELSE {})   \* explicit base_data_offset: not fragment-relative
 
 C11Seg(S, q) ==
     LET n == IF Len(q) < Len(S.s) THEN Len(q) ELSE Len(S.s)
